@@ -45,6 +45,7 @@ def monitor(case, tr, raw):
         return "implementation produced no trace: %s" % (raw or "")[:80]
     params, rounds = parse_case(case)
     count = params[1]
+    start = params[3] if len(params) > 3 else 0     # initial counter value (completed rounds)
     n = len(rounds)
     rnd = [0] * n               # round the fiber is in (its k-th call)
     phase = ["idle"] * n        # idle / entered / arrived / returned
@@ -75,8 +76,9 @@ def monitor(case, tr, raw):
         elif loc == LOC_COUNTER and kind == 55:
             if phase[t] != "entered":
                 return with_cause("fiber %d incremented the counter outside a call" % t)
-            if val != nadd:
-                return with_cause("counter is not a monotone arrival count: fetched %d, expected %d" % (val, nadd))
+            if val != start + nadd:
+                return with_cause("counter is not a monotone arrival count: fetched %d, expected %d" % (val, start + nadd))
+            val -= start      # arrival number since the start of the case (start is a multiple of count)
             nadd += 1
             ticket[t] = val; phase[t] = "arrived"
             serial[t] = ((val + 1) % count == 0)
@@ -204,6 +206,22 @@ def gen_cases(ctx, tier):
         else:
             sched = core.random_sched(rng, count, rng.randint(0, 50 * count * r), rng.randrange(3))
         add("reuse_count_ge_3", count, [r] * count, sched, 6000)
+    # (3b) long-lived barrier: the 64-bit arrival counter is close to / beyond 2^32 when the case starts
+    #      (start = a whole number of completed rounds); counts that do not divide 2^32 and a power-of-two control
+    for count in (3, 5, 6, 7, 4):
+        below = ((2 ** 32 - 2 * count) // count) * count        # largest multiple of count <= 2^32 - 2*count
+        above = (2 ** 32 // count + 1) * count                   # first multiple of count above 2^32
+        for start in (below, above):
+            r = 4 if start == below else 2
+            for j in range((24 if big else 6)):
+                if j == 0:
+                    sched = []                                     # plain round-robin
+                elif j % 2:
+                    sched = straggler_sched(rng, count, rng.randrange(count), rng.randint(0, 6))
+                else:
+                    sched = core.random_sched(rng, count, rng.randint(0, 40 * count * r), rng.randrange(3))
+                cases.append(core.fmt_case([12000, count, 2, start], progs_of([r] * count), sched))
+                dist["counter_near_2^32"] = dist.get("counter_near_2^32", 0) + 1
     # (4) fewer fibers than count: everybody sleeps, nobody returns
     for _ in range(300 if big else 60):
         count = rng.randint(2, 5)
